@@ -31,6 +31,7 @@ type c18Job struct {
 	Op   int
 	Name string
 	Path string // "check" | "deliver"
+	Deep bool   `json:",omitempty"` // thorough tier: the menu also holds every PAIR of hostile leaves (reduced value sets)
 }
 
 type c18Res struct {
@@ -100,7 +101,7 @@ func hostileStrings(cur string) []interface{} {
 }
 
 // hostiles enumerates the hostile variants of one valid transaction (deterministic order).
-func hostiles(t *harness.TxSpec, w *harness.World) []hostile {
+func hostiles(t *harness.TxSpec, w *harness.World, deep bool) []hostile {
 	var out []hostile
 	// the valid transaction itself: what it stores may be what a LATER block hook trips over (every accepted
 	// input is followed by the scenario's remaining blocks, see c18Exec)
@@ -264,6 +265,67 @@ func hostiles(t *harness.TxSpec, w *harness.World) []hostile {
 				}
 			}
 		}
+		// thorough tier: every PAIR of leaves hostile at once (a guard on one field may be what protects the
+		// dereference of another), with a reduced value set per leaf
+		if deep {
+			reduced := func(cur interface{}) []interface{} {
+				switch tt := cur.(type) {
+				case string:
+					hs := hostileStrings(tt)
+					out := []interface{}{nil, ""}
+					if len(hs) > 0 {
+						out = append(out, hs[0])
+					}
+					if len(hs) > 3 {
+						out = append(out, hs[3])
+					}
+					return out
+				case json.Number:
+					return []interface{}{json.Number("-1"), json.Number("0"), json.Number("9223372036854775807"), nil}
+				case bool:
+					return []interface{}{!tt, nil}
+				}
+				return []interface{}{"x", json.Number("1")}
+			}
+			setOn := func(base []byte, p path, val interface{}) []byte {
+				var c interface{}
+				d2 := json.NewDecoder(bytes.NewReader(base))
+				d2.UseNumber()
+				if d2.Decode(&c) != nil {
+					return nil
+				}
+				var set func(x interface{}, p path) interface{}
+				set = func(x interface{}, p path) interface{} {
+					if len(p) == 0 {
+						return val
+					}
+					switch tt := x.(type) {
+					case map[string]interface{}:
+						tt[p[0].(string)] = set(tt[p[0].(string)], p[1:])
+						return tt
+					case []interface{}:
+						tt[p[0].(int)] = set(tt[p[0].(int)], p[1:])
+						return tt
+					}
+					return x
+				}
+				b, _ := json.Marshal(set(c, p))
+				return b
+			}
+			for i := 0; i < len(leaves); i++ {
+				for k := i + 1; k < len(leaves); k++ {
+					for ai, a := range reduced(get(v, leaves[i])) {
+						for bi, b := range reduced(get(v, leaves[k])) {
+							d := setOn(setOn(t.Data, leaves[i], a), leaves[k], b)
+							if d == nil || bytes.Equal(d, t.Data) {
+								continue
+							}
+							sign(fmt.Sprintf("pair:%s#%d+%s#%d", pname(leaves[i]), ai, pname(leaves[k]), bi), d, t.Type)
+						}
+					}
+				}
+			}
+		}
 		for _, p := range nodes {
 			for i, a := range []interface{}{nil, []interface{}{}, map[string]interface{}{}, "x", json.Number("1")} {
 				sign(fmt.Sprintf("%s#node%d", pname(p), i), setAt(p, a), t.Type)
@@ -351,7 +413,7 @@ func c18Exec(j c18Job) c18Res {
 	if err != nil {
 		return c18Res{Err: err.Error()}
 	}
-	hs := hostiles(h.Blocks[h.Target].Txs[0], h.W)
+	hs := hostiles(h.Blocks[h.Target].Txs[0], h.W, j.Deep)
 	if j.Op >= len(hs) {
 		return c18Res{Err: "operator out of range"}
 	}
@@ -475,10 +537,11 @@ func c18(args []string) int {
 			continue
 		}
 		kinds[sc.Kind] = true
-		hs := hostiles(h.Blocks[h.Target].Txs[0], h.W)
+		deep := f.Tier == "thorough"
+		hs := hostiles(h.Blocks[h.Target].Txs[0], h.W, deep)
 		perKind[sc.Kind] = len(hs)
 		for op, hv := range hs {
-			jobList = append(jobList, c18Job{Scn: sc.ID(), Op: op, Name: hv.name, Path: "check"}, c18Job{Scn: sc.ID(), Op: op, Name: hv.name, Path: "deliver"})
+			jobList = append(jobList, c18Job{Scn: sc.ID(), Op: op, Name: hv.name, Path: "check", Deep: deep}, c18Job{Scn: sc.ID(), Op: op, Name: hv.name, Path: "deliver", Deep: deep})
 		}
 	}
 	jobs := make([]interface{}, len(jobList))
